@@ -57,9 +57,8 @@ func (b *exampleBuilder) buildExampleForObjectNode(node *internalSchema.ObjectNo
 	defer exampleBufferPool.Put(buf)
 
 	buf.WriteRune('{')
-	children := node.Children()
-	length := len(children)
-	for i, childNode := range children {
+	emitted := false
+	for i, childNode := range node.Children() {
 		ex, err := b.Build(childNode)
 		if err != nil {
 			return nil, err
@@ -74,13 +73,17 @@ func (b *exampleBuilder) buildExampleForObjectNode(node *internalSchema.ObjectNo
 			return nil, err
 		}
 
+		// The separator depends on what was emitted, not on the index: a child
+		// omitted by the recursion cut-off must not leave a dangling comma.
+		if emitted {
+			buf.WriteRune(',')
+		}
+		emitted = true
+
 		buf.WriteRune('"')
 		buf.Write(k)
 		buf.WriteString(`":`)
 		buf.Write(ex)
-		if i+1 != length {
-			buf.WriteRune(',')
-		}
 	}
 	buf.WriteRune('}')
 	return buf.Bytes(), nil
@@ -88,6 +91,12 @@ func (b *exampleBuilder) buildExampleForObjectNode(node *internalSchema.ObjectNo
 
 func (b *exampleBuilder) buildObjectKey(k internalSchema.ObjectNodeKey) ([]byte, error) {
 	if !k.IsShortcut {
+		// Use the key as it is written in the schema (escape sequences included):
+		// the decoded key may contain quotes, backslashes or control characters.
+		raw := k.Lex.Value().TrimSpaces()
+		if len(raw) >= 2 && raw[0] == '"' && raw[len(raw)-1] == '"' {
+			return raw[1 : len(raw)-1], nil
+		}
 		return []byte(k.Key), nil
 	}
 
@@ -112,9 +121,8 @@ func (b *exampleBuilder) buildExampleForArrayNode(node *internalSchema.ArrayNode
 	defer exampleBufferPool.Put(buf)
 
 	buf.WriteRune('[')
-	children := node.Children()
-	length := len(children)
-	for i, childNode := range children {
+	emitted := false
+	for _, childNode := range node.Children() {
 		ex, err := b.Build(childNode)
 		if err != nil {
 			return nil, err
@@ -124,10 +132,12 @@ func (b *exampleBuilder) buildExampleForArrayNode(node *internalSchema.ArrayNode
 			continue
 		}
 
-		buf.Write(ex)
-		if i+1 != length {
+		if emitted {
 			buf.WriteRune(',')
 		}
+		emitted = true
+
+		buf.Write(ex)
 	}
 	buf.WriteRune(']')
 	return buf.Bytes(), nil
